@@ -31,10 +31,33 @@ fn zones(surface: bool, odd: bool, lat: f64) -> (f64, f64) {
 }
 
 fn in_range(r: &mut Report, rng: &mut Rng, surface: bool, st: &mut Stats) {
-    let lat = if rng.chance(0.7) { rng.uni(-1.0, 1.0).asin().to_degrees() } else { rng.uni(-90.0, 90.0) };
-    let lon = rng.uni(-180.0, 180.0);
+    let mut lat = if rng.chance(0.7) { rng.uni(-1.0, 1.0).asin().to_degrees() } else { rng.uni(-90.0, 90.0) };
+    let mut lon = rng.uni(-180.0, 180.0);
     let odd = rng.chance(0.5);
+    // one truth in 12 sits on the CPR lattice itself: a zone corner (both transmitted counts 0), a zone edge in one
+    // coordinate, or the last bin before an edge (count 2^17 - 1): perfectly valid positions with "empty-looking" fields
+    if rng.chance(1.0 / 12.0) {
+        let span = if surface { 90.0 } else { 360.0 };
+        let dlat = span / (60.0 - odd as u32 as f64);
+        let bin = dlat / 131072.0;
+        let jmax = (89.0 / dlat) as i64;
+        let j = rng.range(-jmax, jmax);
+        let mode = rng.below(4);
+        if mode != 2 {
+            lat = j as f64 * dlat + if mode == 3 { -bin } else { 0.0 };
+        }
+        if mode != 1 && lat.abs() < 86.0 {
+            let ni = (geo::nl(lat) - odd as i32).max(1) as f64;
+            let dlon = span / ni;
+            let m = rng.range(-(ni as i64 * 2), ni as i64 * 2);
+            lon = geo::wrap180(m as f64 * dlon + if mode == 3 { -dlon / 131072.0 } else { 0.0 });
+        }
+        r.class("in-range:truth-on-the-cpr-lattice");
+    }
     let e = cpr::encode(lat, lon, odd as u32, surface);
+    if e.yz == 0 && e.xz == 0 {
+        r.class("in-range:cpr-counts-both-zero(zone corner)");
+    }
     let range_m = if surface { 45.0 } else { 180.0 } * geo::NM;
     let frac = match rng.below(4) {
         0 => rng.uni(0.90, 0.95),
@@ -182,6 +205,6 @@ pub fn run(a: &Args, r: &mut Report) {
     r.class_n("any-reference:none", st.far_none);
     r.class_n("any-reference:some-within-half-zone", st.far_some);
     r.max("error_m", st.max_err);
-    r.extra.insert("mandatory".into(), json!(["in-range-ok:airborne:even", "in-range-ok:airborne:odd", "in-range-ok:surface:even", "in-range-ok:surface:odd", "any-reference:some-within-half-zone"]));
+    r.extra.insert("mandatory".into(), json!(["in-range-ok:airborne:even", "in-range-ok:airborne:odd", "in-range-ok:surface:even", "in-range-ok:surface:odd", "any-reference:some-within-half-zone", "in-range:cpr-counts-both-zero(zone corner)"]));
     r.sample(json!({"kind": "in-range", "truth": [48.1, 11.5], "reference_offset_nm": 171.0, "format": "airborne"}));
 }
